@@ -182,19 +182,30 @@ def make_t6(opname, op, tier):
         n, bad = 0, []
         if not any(T.is_const(p) for s in op.signatures for p in s.types):
             return Outcome("discharged", goal=f"{opname} declares no const parameter", paths=1, queries=1, backend="evaluation")
+
+        def declared_const(i, nargs):
+            """is position i const in EVERY declared overload that can take nargs arguments?"""
+            res = []
+            for s in op.signatures:
+                k = len(s.types)
+                if nargs == k or (s.is_vararg and nargs >= k - 1):
+                    res.append(T.is_const(s.types[min(i, k - 1)]))
+            return bool(res) and all(res)
+
         for sig in TU.tuples_for(op, "quick"):
             if len(sig) > 0 and all(TU.is_null_typed(t) for t in sig):
+                continue
+            st, _ = _rt(op, sig)
+            if st != "ok":
                 continue
             try:
                 m = op.trie.best_match(list(sig))
             except BaseException:  # noqa: BLE001
                 continue
-            if m is None:
-                continue
-            for i, (a, p) in enumerate(zip(sig, m[0], strict=False)):
+            for i, a in enumerate(sig):
                 n += 1
-                if T.is_const(p) and not T.is_const(a):
-                    bad.append(f"{opname}{_fmt(sig)} selected the overload {_fmt(m[0])}: column argument at const parameter {i}")
+                if not T.is_const(a) and (declared_const(i, len(sig)) or (m is not None and i < len(m[0]) and T.is_const(m[0][i]))):
+                    bad.append(f"{opname}{_fmt(sig)} is accepted although parameter {i} is declared const and the argument is a column")
         return _enum_outcome(f"{opname}: a parameter declared const never accepts a non-const argument", n, bad, allow_empty=True)
 
     return run
